@@ -101,6 +101,21 @@ def readRecord (s : Bytes) : Except Err (Rec × Bytes) :=
       if rest.length < len then .error (if rest.length = 0 then .eof else .ueof)
       else .ok (⟨s.headD 0, ver, rest.take len⟩, rest.drop len)
 
+/-- What `FakeTLS.Read` does with a record of a given type. -/
+inductive RAct where
+  | skip | deliver | errHandshake | errOther
+  deriving Repr, DecidableEq
+
+/-- The `switch rec.Type` of `FakeTLS.Read`, read from the source as a table (`Facts.C19.readSwitch`:
+0 = `continue`, 1 = fall out of the switch and buffer the data, 2 = "unexpected record type
+handshake", 3 = "unsupported record type"; `readDefault` for the default case). -/
+def actionOf (ty : UInt8) : RAct :=
+  match (Facts.C19.readSwitch.lookup ty.toNat).getD Facts.C19.readDefault with
+  | 0 => .skip
+  | 1 => .deliver
+  | 2 => .errHandshake
+  | _ => .errOther
+
 /-- Everything a peer's `FakeTLS.Read` calls deliver from a connection stream, and the error that
 ends it (`eof` at a clean end).  ChangeCipherSpec records are skipped. -/
 def appData : Nat → Bytes → Bytes × Err
@@ -109,12 +124,13 @@ def appData : Nat → Bytes → Bytes × Err
     match readRecord s with
     | .error e => ([], e)
     | .ok (r, rest) =>
-      if r.ty = tCCS then appData fuel rest
-      else if r.ty = tApp then
+      match actionOf r.ty with
+      | .skip => appData fuel rest
+      | .deliver =>
         let (d, e) := appData fuel rest
         (r.data ++ d, e)
-      else if r.ty = tHandshake then ([], .handshake)
-      else ([], .unsupported r.ty.toNat)
+      | .errHandshake => ([], .handshake)
+      | .errOther => ([], .unsupported r.ty.toNat)
 
 /-- Reader state: the internal `readBuf` and the unread connection stream. -/
 structure RState where
@@ -131,10 +147,11 @@ def readCall : Nat → Nat → RState → Except Err (Bytes × RState)
       match readRecord st.conn with
       | .error e => .error e
       | .ok (r, rest) =>
-        if r.ty = tCCS then readCall fuel k { buf := [], conn := rest }
-        else if r.ty = tApp then readCall fuel k { buf := r.data, conn := rest }
-        else if r.ty = tHandshake then .error .handshake
-        else .error (.unsupported r.ty.toNat)
+        match actionOf r.ty with
+        | .skip => readCall fuel k { buf := [], conn := rest }
+        | .deliver => readCall fuel k { buf := r.data, conn := rest }
+        | .errHandshake => .error .handshake
+        | .errOther => .error (.unsupported r.ty.toNat)
 
 /-! ## ServerHello -/
 
